@@ -216,7 +216,9 @@ CLAIMED["C08"] = dict(
           "owning block k, strict zips fail only on a count mismatch - for all local sizes and all gradient-presence patterns of three parameters. HybridShard's update_params is "
           "proved under the all-gather contract (as C06). Blocking, step, assignment and buffers are inherited from C05, C01-C04, C14."),
     design_ref="DESIGN.md §4/C08",
-    note="DTensor.to_local contract assumed; DTensor runs on simulated ranks with empty local shards and absent gradients vs serial Shampoo on the local tensors are bounded (world 2..4)",
+    note=("DTensor.to_local contract assumed; bounded: FullyShard DTensor runs on simulated ranks with empty local shards and absent gradients vs serial Shampoo on the local tensors "
+          "(world 2..4) and the real HybridShard distributor on replicate x shard meshes of simulated ranks (local shard == serial for FP32 communication, replicas bit-identical "
+          "for every communication setting, a never-updated parameter stays untouched)"),
     technique=E2 + "; contract composition with C05/C14/C06",
 )
 
